@@ -77,6 +77,11 @@ fn table() -> Vec<Entry> {
         Entry { def: "gridshift grids=@missing.datum, test_subset.datum, test.datum", writes: xy, deps: [xy, xy, 0, 0], deps_inv: None, inside: cov.clone(), outside_fwd: outside_cov.clone(), outside_inv: outside_cov.clone(), invertible: true },
         Entry { def: "gridshift grids=5458.gsb", writes: xy, deps: [xy, xy, 0, 0], deps_inv: None, inside: vec![geo(12., 55., 0., 2000.), geo(9.5, 56.25, 10., 2001.)], outside_fwd: vec![geo(30., 30., 0., 2020.)], outside_inv: vec![geo(30., 30., 0., 2020.)], invertible: true },
         Entry { def: "deformation grids=test.deformation t_epoch=2000", writes: xyz, deps: [xyz, xyz, xyz, xyz], deps_inv: None, inside: cov.iter().map(cart).collect(), outside_fwd: outside_cov.iter().map(cart).collect(), outside_inv: outside_cov.iter().map(cart).collect(), invertible: true },
+        // the null grid passes points outside the grids unchanged - but it cannot tell where a NaN position is
+        Entry { def: "gridshift grids=test.datum, @null", writes: xy, deps: [xy, xy, 0, 0], deps_inv: None, inside: cov.clone(), outside_fwd: vec![], outside_inv: vec![], invertible: true },
+        Entry { def: "gridshift grids=test.geoid, @null", writes: 0b0100, deps: [0b100, 0b100, 0b100, 0], deps_inv: None, inside: cov.clone(), outside_fwd: vec![], outside_inv: vec![], invertible: true },
+        Entry { def: "deformation grids=test.deformation, @null t_epoch=2000", writes: xyz, deps: [xyz, xyz, xyz, xyz], deps_inv: None, inside: cov.iter().map(cart).collect(), outside_fwd: vec![], outside_inv: vec![], invertible: true },
+        Entry { def: "deflection grids=test.geoid, @null", writes: xy, deps: [xy, xy, 0, 0], deps_inv: None, inside: vec![[55., 12., 0., 0.], [56.25, 9.5, 0., 1.]], outside_fwd: vec![], outside_inv: vec![], invertible: false },
         Entry { def: "deflection grids=test.geoid", writes: xy, deps: [xy, xy, 0, 0], deps_inv: None, inside: vec![[55., 12., 0., 0.], [56.25, 9.5, 0., 1.]], outside_fwd: vec![[30., 30., 0., 0.], [60., 12., 0., 0.]], outside_inv: vec![], invertible: false },
         // geodesics: forward (lat, lon, azimuth, distance) -> (lat2, lon2, lat1, lon1); inverse (lat1, lon1, lat2, lon2) ->
         // (azi1, azi2, distance, return azimuth), or in the reversible mode (lat2, lon2, return azimuth, distance).
